@@ -264,8 +264,24 @@ def go_right_file_run(crate, R=3):
         r = ex_.fresh(dty, st_, "hdr")
         st_.events.append(("decode", "bincode::deserialize", None, r))
         return [(r, None)]
+    def h_chunks_exact(ex_, st_, frame, t, nf, args, dty):
+        """[u8]::chunks_exact(n) over a modelled byte buffer (file range): consecutive n-byte sub-ranges"""
+        from .ob_record import mk_buf
+        from . import iters as IT
+        b = S.deref_val(ex_, st_, args[0])
+        n = z3.simplify(args[1].t)
+        if not (isinstance(b, Obj) and ("g", "len") in b.fields and z3.is_bv_value(n) and n.as_long() > 0):
+            raise Unsupported("chunks_exact on an unmodelled slice / symbolic chunk size")
+        n = n.as_long()
+        ln, off = b.fields[("g", "len")].t, b.fields[("g", "off")].t
+        slots = []
+        for k in range(0, 4096 // n + 1):
+            sub = mk_buf(BV64(n), off + BV64(k * n))
+            slots.append((z3.ULE(BV64((k + 1) * n), ln), Ref(st_.new_cell(sub), (), False, "&[u8]")))
+        return [(IT.IterV(slots, "&[u8]", True, z3.UDiv(ln, BV64(n))), None)]
     ex = P.mk_executor(crate, cap=R + 2, loop_bound=R + 1, inline=[],
-                       extra_summaries=[(r"^<\[u8\] as PartialEq>::(eq|ne)$", h_keycmp), (r"^bincode::deserialize$", h_deser)],
+                       extra_summaries=[(r"^<\[u8\] as PartialEq>::(eq|ne)$", h_keycmp), (r"^bincode::deserialize$", h_deser),
+                                        (r"^core::slice::(<impl[^>]*>::)?chunks_exact$", h_chunks_exact)],
                        havoc=[r"^(bytes::)?BytesMut::zeroed$", r"^<BytesMut as Deref>::deref$"])
     ex.unwind_assume = True
     st = State()
